@@ -619,6 +619,78 @@ def run (trace : String) : String × Bool := Id.run do
 
 end F
 
+/-! ## Writer.Close on the hook events of writer.go (op `wtrace`): the WaitGroup of Model/WriterClose evaluated
+deterministically, and the trace-level counterpart of `all_completed_before_close_return` -/
+
+namespace WH
+
+inductive Ev
+  | enter (ok : Bool) | left | newPW (p q : Nat) | newBatch (b : Nat) | attempt (b : Nat) | completion (b : Nat)
+  | complete (b : Nat) | senderExit (q : Nat) | closeBegin | closeMarked | closeReturn
+deriving DecidableEq
+
+def parseEv (t : String) : Option Ev :=
+  if t == "E1" then some (.enter true) else if t == "E0" then some (.enter false)
+  else if t == "L" then some .left else if t == "XB" then some .closeBegin
+  else if t == "XM" then some .closeMarked else if t == "XR" then some .closeReturn
+  else
+    let body := (t.drop 1).toString
+    match t.take 1 |>.toString, body.splitOn ":" with
+    | "P", [p, q] => do some (.newPW (← p.toNat?) (← q.toNat?))
+    | "N", [b] => b.toNat?.map .newBatch
+    | "A", [b] => b.toNat?.map .attempt
+    | "K", [b] => b.toNat?.map .completion
+    | "C", [b] => b.toNat?.map .complete
+    | "G", [q, "nil"] => q.toNat?.map .senderExit
+    | _, _ => none
+
+/-- the WaitGroup as Model/WriterClose derives it (`State.wg`): calls between enter and leave + live sender goroutines
+(awaitBatch goroutines have no exit hook and are left out); `enter` is refused iff the writer is marked closed;
+CloseReturn needs the count to be 0 -/
+def replay (evs : List Ev) : String := Id.run do
+  let mut calls := 0
+  let mut senders := 0
+  let mut closed := false
+  let mut i := 0
+  for e in evs do
+    match e with
+    | .enter ok =>
+      if ok == closed then return s!"reject@{i}:enter-{ok}-while-closed={closed}"
+      if ok then calls := calls + 1
+    | .left => if calls == 0 then return s!"reject@{i}:leave-without-enter" else calls := calls - 1
+    | .newPW _ _ => senders := senders + 1
+    | .senderExit _ => if senders == 0 then return s!"reject@{i}:sender-exit" else senders := senders - 1
+    | .closeBegin => closed := true
+    | .closeReturn => if calls != 0 || senders != 0 then return s!"reject@{i}:CloseReturn-with-wg={calls + senders}"
+    | _ => pure ()
+    i := i + 1
+  return "ok"
+
+/-- monitor on the raw events: at CloseReturn every batch created has been completed (after exactly one Completion
+callback when any is configured), every partition writer's sender has exited, and nothing happens afterwards -/
+def holds (evs : List Ev) : Bool :=
+  let z := evs.zipIdx
+  match (z.find? fun x => x.1 == .closeReturn).map (·.2) with
+  | none => true
+  | some r =>
+    let before := (z.filter fun x => x.2 < r).map (·.1)
+    let after := (z.filter fun x => x.2 > r).map (·.1)
+    let anyCompletion := evs.any fun e => match e with | .completion _ => true | _ => false
+    let batches := evs.filterMap fun e => match e with | .newBatch b => some b | _ => none
+    let queues := evs.filterMap fun e => match e with | .newPW _ q => some q | _ => none
+    batches.all (fun b => before.contains (.complete b) &&
+      (!anyCompletion || (before.filter (· == .completion b)).length == 1)) &&
+    queues.all (fun q => before.contains (.senderExit q)) &&
+    after.all (fun e => match e with | .enter false => true | .enter true => false | _ => false)
+
+def run (trace : String) : String × Bool :=
+  let toks := if trace == "-" then [] else (trace.splitOn ";").filter (· ≠ "")
+  match toks.mapM parseEv with
+  | none => ("bad-trace", false)
+  | some evs => (replay evs, holds evs)
+
+end WH
+
 def answer (model : String) (holds : Bool) : String :=
   s!"model={model} holds={if holds then 1 else 0}"
 
@@ -636,6 +708,7 @@ def step (line : String) : String :=
     | ["grun", cfgs, trace] => let (m, h) := G.run cfgs trace; answer m h
     | ["ttrace", _, trace] => let (m, h) := T.run trace; answer m h
     | ["ftrace", _, trace] => let (m, h) := F.run trace; answer m h
+    | ["wtrace", _, trace] => let (m, h) := WH.run trace; answer m h
     | _ => "bad-op"
   | _ => "bad-line"
 
